@@ -35,7 +35,9 @@ ARRAYS = ['a0', 'a1', 'a2', 'a3']
 OBJECTS = ['o0', 'o1', 'o2']
 STRINGS = ['s0', 's1', 's2']
 SAVED = ['x0', 'x1']
-STRING_POOL = ['', 'a', 'ab', 'abcab', 'A b ', ' x ', 'é\U0001f600z', 'a,b,,c', 'aXbXc', 'hello world', 'Straße']
+STRING_POOL = ['', 'a', 'ab', 'abcab', 'A b ', ' x ', 'é\U0001f600z', 'a,b,,c', 'aXbXc', 'hello world', 'Straße',
+               # white space that is not ASCII (no-break space, em space, ideographic space, line separator) at the ends and inside
+               'abc\u00a0', '\u2003abc', '\u3000a b\u2028', '\u00a0', 'x\u00a0y', '\tab\t ']
 SEARCH_POOL = ['a', 'b', 'ab', ',', ' ', 'X', 'c', 'zz', 'é']
 KEYS = ['a', 'b', 'c', 'k', '']
 FUNCTIONS = sorted(n for n in rl.MODELS if n.startswith(('array', 'object', 'string')))
